@@ -18,7 +18,9 @@ THEOREMS = {
             "fit_tasks_commute", "parallelFitIn_closed", "Py.Dict.foldl_modify",
             "chunkFold_congr", "chunk_split", "nhoodRow_config", "sameConfig_fit", "predictChunk_eq_chunkFold",
             "fit_then_predictExp_congr", "nhoodRow_congr", "nhoodRow_sameCfg", "chunkFold_congr_all", "chunk_split_all",
-            "predictChunk_eq_chunkFold_all"],
+            "predictChunk_eq_chunkFold_all",
+            "predictExp_out_of_norm", "canon_after_query", "clusterStep", "clusterFold_congr", "cluster_chunk_split",
+            "predictChunk_eq_clusterFold"],
     "C06": ["incremental_eq_batch", "spec_chunked", "rowsOf_append", "fitRec_append", "first_partial_is_fit", "neighbors_history"],
     "C07": ["fit_discards", "resetFor_congr", "sameConfig_fresh", "fit_after_history_eq_fresh"],
     "C08": ["keys_eq_arms", "added_immediately", "removed_never_returns", "arms_unchanged_by_training", "unwrap_shape",
@@ -58,7 +60,7 @@ IMPORTS = {
     "C02": ["MabModel.Props.C02", "MabModel.Props.C02b"],
     "C03": ["MabModel.Props.C03"],
     "C04": ["MabModel.Props.C04"],
-    "C05": ["MabModel.Props.C05", "MabModel.Props.C05b", "MabModel.Props.C05c"],
+    "C05": ["MabModel.Props.C05", "MabModel.Props.C05b", "MabModel.Props.C05c", "MabModel.Props.C05d"],
     "C06": ["MabModel.Props.C06"],
     "C07": ["MabModel.Props.C07"],
     "C08": ["MabModel.Props.C08"],
